@@ -38,6 +38,10 @@ CHECKS["C19"] = dict(level="model_checking", design="3/C19",
    technique="TLC model checking of Init.tla (N threads, safety + liveness under weak fairness) + trace validation (TLC) of hook-recorded real sodium_init races; ThreadSanitizer as observer for the race-freedom half",
    text="TLC explores every interleaving of 3 (thorough: also 5) threads stepping through sodium_init one action per step taken under the lock (lock, check, cpu, stir, alloc, eight picks, set-initialised, unlock, return, use) and checks mutual exclusion, once-only initialisation, no-partial-initialisation-visible-after-return, return values (exactly one 0, the rest 1) and termination under weak fairness; three wrong designs (flag set first + unlocked check, unlock before the picks, flag never set) must violate them. The real library is raced in a fresh process per trial (2..16 threads behind a barrier, seeded spins, 5 CPU masks, 2-3 builds) with the guarded hook reporting every step under the lock stamped by a global sequence number, and TLC must explain every recorded trial as a behaviour of Init with the reported return values; a thread returning without the lock steps, a step while another thread is inside, a return before initialisation is complete or two initialisations are rejected whatever the timing was. Race freedom of the rest of the API is observed with ThreadSanitizer on a 20-family workload with the default and the internal random source, and per-thread results are compared with a sequential run.",
    note="Trusted: TLC; the hook's atomic sequence counter; ThreadSanitizer's happens-before analysis for the second half (this half is observer-based exploration of the executed workload, not model checking: TLA+ cannot see unordered memory accesses). Sequentially consistent memory in the model.")
+CHECKS["C10"] = dict(level="model_checking", design="3/C10",
+   technique="TLC exhaustive check of the detection/dispatch specification (Dispatch.tla) + TLC trace validation of detection and pick events under 20 CPUID/XCR0 masks and 4 builds + TLC-checked equality of a 94-function corpus across all 23 configurations",
+   text="TLC enumerates every architecturally closed CPUID bit set x every set of OS-enabled state components x 4 builds (19 968 configurations) and checks that the detection function never reports a feature processor+OS lack, that no selected implementation executes an absent feature and that AES-GCM reports itself available only with its hardware; dropping the XCR0 test must violate it. The real library is then started under 20 masks that clear CPUID/XCR0 bits before detection (guarded hook) on the native build plus the noasm, no128 and portable builds: the trace specification requires the reported feature flags to equal Dispatch!Detect of the masked inputs and every pick event to equal Dispatch!Pick (all 23 implementations get selected by some configuration), AES-GCM availability as specified and clean failure in the build without it. A shared corpus (94 function families, boundary lengths, ~3.9k calls quick / 6.8k thorough) runs in each configuration and every (function, case) result and return code must equal the reference configuration's.",
+   note="Trusted: TLC; the hook mask can only hide features; the reference configuration's bytes are validated by the owning properties, here only equality. Other architectures are out of reach.")
 NOT_YET = {}
 def main():
     props = [json.loads(l) for l in open(os.path.join(HERE, "properties.jsonl"))]
